@@ -67,6 +67,8 @@ theorem nextslicecap_ge (newLen oldCap : Int) : newLen ≤ nextslicecap newLen o
 theorem uint_cmp_domain (a b : Int) (ha : 0 ≤ a) (ha' : a < 2 ^ 63) (hb : 0 ≤ b) (hb' : b < 2 ^ 63) :
     (a % 2 ^ 64 ≥ b % 2 ^ 64) ↔ a ≥ b := uint_cmp_domain' a b ha ha' hb hb'
 
+example : (0 : Int) ≤ 448 ∧ (448 : Int) < 2 ^ 63 ∧ (0 : Int) ≤ 300 ∧ (300 : Int) < 2 ^ 63 := by decide
+
 /-- with the code's own policy (`nextslicecap`) — repaired code -/
 theorem append_spec_nextslicecap (m : Mem) (s : Slice) (data : Nat) (num esz : Int)
     (hesz : 0 ≤ esz) (hnum : 0 ≤ num) (hwf : WF m s esz) (hsrc : data + (num * esz).toNat ≤ m.next) :
